@@ -96,4 +96,7 @@ def templates(cfg):
         return d >> p.left_join(s, d.c == s.a) >> p.mutate(z=s.c)
 
     T("self_join_derived", self_join_derived, TU_DISJ)
+    from . import temporal
+
+    out += temporal.templates_for("C06", cfg)
     return out
